@@ -52,9 +52,10 @@ func runCase(phase string, i int) worker.Result {
 	ctx := context.Background()
 	rng := evidence.RandFor(evidence.Seed(), "c04-"+phase, i)
 	c := copymon.GenCase(rng, copymon.GenOpts{
-		MaxNodes: map[string]int{"quick": 40, "thorough": 100}[evidence.Tier()],
-		APIs:     []string{"Copy", "CopyGraph", "CopyGraph", "ExtendedCopyGraph"},
-		MaxDelay: 1500 * time.Microsecond,
+		MaxNodes:   map[string]int{"quick": 40, "thorough": 100}[evidence.Tier()],
+		APIs:       []string{"Copy", "CopyGraph", "CopyGraph", "ExtendedCopyGraph"},
+		MaxDelay:   1500 * time.Microsecond,
+		RaceWriter: true,
 	})
 	if c.API == "ExtendedCopyGraph" && c.SrcKind == "remote" {
 		c.SrcKind = "memory"
@@ -166,6 +167,9 @@ func runCase(phase string, i int) worker.Result {
 		root = c.Expect
 	}
 	res.NT = saturated && c.G.HasSharing(root) && len(pushed) >= 1
+	if c.RaceNode >= 0 {
+		res.Count("cases_with_racing_writer", 1)
+	}
 	if c.Mount != "" {
 		res.Count("cases_with_mount_"+c.Mount, 1)
 	}
